@@ -176,6 +176,18 @@ def run_table(item):
             item.violations.append(H.Violation(item.name, "table", {"lat": xx}, "cprNL(%r) = %r, DO-260B NL = %d"
                                                % (xx, H.jsonable(r[:2]), w), raw={"lat_bits": f2bits(xx)}))
     if bad and not item.violations:
+        # not reproducible by single calls in a fresh process: is the function history-dependent? (two calls in one process)
+        for xx, v, w in bad[:6]:
+            for other in (xx + 3e-5, xx - 3e-5, -xx):
+                r = H.real_driver("cprnl_sequence", [other, xx])
+                if r[0] == "ret" and r[1][1] != w and not (abs(abs(xx) - 87) <= 1e-9 and r[1][1] in (1, 2)):
+                    item.violations.append(H.Violation(item.name, "table-sequence", {"calls": [other, xx]},
+                                                       "cprNL(%r) then cprNL(%r) = %r in one process, DO-260B NL = %d"
+                                                       % (other, xx, r[1][1], w), raw={"lat_bits": f2bits(xx)}))
+                    break
+            if item.violations:
+                break
+    if bad and not item.violations:
         raise H.HarnessError("extracted staircase differs from DO-260B but no concrete witness reproduces: %r" % (bad[:3],))
     # monotone / even on the table itself
     item.obligations += 1
